@@ -9,6 +9,9 @@ Open Scope string_scope. Open Scope list_scope. Open Scope Z_scope.
 (* -x & (a - 1): the padding needed to round x up to a multiple of a (a power of two) *)
 Definition pad_to (x a : Z) : Z := Z.land (- x) (a - 1).
 
+(* `cls.alignment or 1`: a structure without members has alignment 0 *)
+Definition eff_align (a : Z) : Z := if a =? 0 then 1 else a.
+
 Definition prim_size_z (p : prim) : option Z := option_map Z.of_nat (prim_size p).
 
 (* result of laying out a field list *)
